@@ -13,12 +13,16 @@ for f in sorted(glob.glob("/verif/seeded/*/meta.json")):
     rows.append(f"| {sid} | r{m.get('round', 1)} | {summ[:230]} | {needs[:200]} | {', '.join(m.get('checks_that_fire', []))} | "
                 f"{'yes' if m.get('target_check_fires') else 'no (reported by the other checks listed; see 9.1-9.6)'} |")
 n = len(rows)
-hit = sum(1 for f in glob.glob("/verif/seeded/*/meta.json") if json.load(open(f)).get("target_check_fires"))
+metas = [json.load(open(f)) for f in glob.glob("/verif/seeded/*/meta.json")]
+hit = sum(1 for m in metas if m.get("target_check_fires"))
+anyfire = sum(1 for m in metas if m.get("checks_that_fire"))
+closed = sum(1 for m in metas if not m.get("checks_that_fire") and m.get("checks_with_analysis_error"))
+silent = n - anyfire - closed
 table = (f"{n} seeded changes are kept ({hit} of them are reported by the check of the property they were written against; "
-         f"every one is reported by at least one check). Round r1: the agent got the property text only; round r2: additionally asked "
+         f"{anyfire} are reported by at least one check; of the other {n - anyfire}, {closed} make at least one check fail closed (ANALYSIS-ERROR, no verdict) and {silent} pass every check unnoticed - all of these are from round r9, see 9.7). Round r1: the agent got the property text only; round r2: additionally asked "
          f"to put at least one change outside the functions the property names; round r3: one feature addition (new option / input form / "
          f"API) with a slip, and one change made of two cooperating edits in different files, each harmless alone; round r4: a performance optimisation and a robustness/leniency improvement; round r5: a classic Python pitfall and a "
-         f"data-only edit; round r6: a wrong-variable / argument-order / off-by-one slip and a condition slip; round r7: an idiom migration with different semantics and a change of when / how often something is evaluated; round r8: a large refactoring commit with one hidden slip and a change confined to shared definitions. `fires` lists every quick check that exits 1 on the "
+         f"data-only edit; round r6: a wrong-variable / argument-order / off-by-one slip and a condition slip; round r7: an idiom migration with different semantics and a change of when / how often something is evaluated; round r8: a large refactoring commit with one hidden slip and a change confined to shared definitions; round r9: a Python modernisation with a semantic side effect and a diagnostics addition with a side effect. `fires` lists every quick check that exits 1 on the "
          f"patched tree.\n\n"
          "| id | round | change | needs to manifest | checks that fire | target check fires |\n|---|---|---|---|---|---|\n" + "\n".join(rows) + "\n")
 s = open("/verif/DESIGN.md").read()
